@@ -206,7 +206,7 @@ func c04unmask(p *Program, r *Report, rule string) {
 			if len(rd) == 0 {
 				return true, ""
 			}
-			big, known := decidedLike(pa, "convert:int64(len(param:p)) > msgReader.payloadLength")
+			big, known := decidedRel(pa, "convert:int64(len(param:p))", ">", "msgReader.payloadLength")
 			if !known {
 				return false, "no comparison of len(p) with payloadLength before the read"
 			}
@@ -246,7 +246,7 @@ func c04adapters(p *Program, r *Report, rule string) {
 			if len(rd) == 0 {
 				return true, ""
 			}
-			eof, known := decidedLike(pa, "call:invoke io.Reader.Read@@#1 == G:io.EOF")
+			eof, known := decidedRel(pa, "call:invoke io.Reader.Read@@#1", "==", "G:io.EOF")
 			cleared := false
 			for _, s := range pa.Events {
 				if s.Kind == "store" && s.AddrK == "netConn.reader" {
@@ -302,6 +302,8 @@ func runC06(p *Program, r *Report) {
 	c06result(p, r, "C06.result")
 	c06closed(p, r, "C06.closed")
 	c06once(p, r, "C06.once")
+	c03ctl(p, r, "C06.recv")
+	c03closepayload(p, r, "C06.parse")
 }
 
 // varargsOf returns the values stored into the variadic slice passed as the last argument of ev.
@@ -537,7 +539,7 @@ func c06result(p *Program, r *Report, rule string) {
 				return true, ""
 			}
 			if nilness(pa.Ret[0], pa) == -1 || pa.Ret[0].Key() == "nil" {
-				ne, known := decidedLike(pa, "call:CloseStatus@@ != param:code")
+				ne, known := decidedRel(pa, "call:CloseStatus@@", "!=", "param:code")
 				if !known || ne {
 					return false, "returns nil without CloseStatus(err) == code"
 				}
